@@ -429,12 +429,12 @@ bool vm_ffi_call(const NvmModule *module, uint32_t import_idx,
 
 #ifdef NANOLANG_VERIF
 /* H5: co-process lifecycle events, one ndjson line per step, appended to
- * $NANOLANG_VERIF_TRACE (inert when the variable is not set). */
+ * $NANOLANG_VERIF_TRACE_COP (inert when the variable is not set). */
 #include <stdarg.h>
 #include <fcntl.h>
 static int nlv_cop_calls = 0;
 static void nlv_cop_ev(const char *fmt, ...) {
-    const char *path = getenv("NANOLANG_VERIF_TRACE");
+    const char *path = getenv("NANOLANG_VERIF_TRACE_COP");
     if (!path || !path[0]) return;
     char line[256];
     int n = snprintf(line, sizeof(line), "{\"vm\":%d,", (int)getpid());
@@ -573,7 +573,7 @@ void vm_ffi_cop_stop(VmState *vm) {
         }
     }
 #ifdef NANOLANG_VERIF
-    if (getenv("NANOLANG_VERIF_TRACE")) {
+    if (getenv("NANOLANG_VERIF_TRACE_COP")) {
         /* has the child really been waited for?  WNOWAIT: look, do not reap */
         siginfo_t nlv_si;
         memset(&nlv_si, 0, sizeof(nlv_si));
